@@ -15,6 +15,7 @@ import OpmVerif.Proofs.UdqLex
 import OpmVerif.Proofs.UdqUnion
 import OpmVerif.Proofs.UdqMatch
 import OpmVerif.Proofs.UdqSort
+import OpmVerif.Proofs.UdqSortOrder
 
 namespace OpmVerif.Props.C17
 open OpmVerif.Udq OpmVerif.Gen.UdqEnums
@@ -466,6 +467,24 @@ theorem sort_ranks_permutation {α : Type} (before : α → α → Bool) (vs : L
 theorem sort_ranks_defined {α : Type} (before : α → α → Bool) (vs : List (Option α)) :
     (sortRanks before vs).map Option.isSome = vs.map Option.isSome ∧ (sortRanks before vs).length = vs.length :=
   ⟨sortRanks_defined before vs, sortRanks_length before vs⟩
+/-- … and with a transitive, asymmetric comparison (`std::less` / `std::greater` on the defined values) an
+entry whose value is strictly before another's gets the smaller rank: SORTA ranks ascend with the values,
+SORTD ranks descend, ties in any case get distinct neighbouring ranks (`sort_ranks_permutation`). -/
+theorem sort_ranks_ordered {α : Type} (before : α → α → Bool)
+    (htrans : ∀ a b c, before a b = true → before b c = true → before a c = true)
+    (hasym : ∀ a b, before a b = true → before b a = false)
+    (vs : List (Option α)) (i j : Nat) (x y : α) (a b : Nat)
+    (hi : vs[i]? = some (some x)) (hj : vs[j]? = some (some y))
+    (ha : (sortRanks before vs)[i]? = some (some a)) (hb : (sortRanks before vs)[j]? = some (some b))
+    (hxy : before x y = true) : a < b :=
+  sortRanks_ordered before htrans hasym vs i j x y a b hi hj ha hb hxy
+/-- the hypotheses are met by `<` (here on ℕ), and the conclusion is not vacuous -/
+example : (∀ a b c : Nat, decide (a < b) = true → decide (b < c) = true → decide (a < c) = true) ∧
+    (∀ a b : Nat, decide (a < b) = true → decide (b < a) = false) ∧
+    sortRanks (fun a b : Nat => decide (a < b)) [some 5, none, some 2, some 5, some 1] = [some 3, none, some 2, some 4, some 1] := by
+  refine ⟨?_, ?_, by decide⟩
+  · intro a b c h1 h2; simp at *; omega
+  · intro a b h; simp at *; omega
 theorem sort_set_shape {α : Type} (F : Fns α) (before : α → α → Bool) (u : USet α) :
     (sortSet F before u).vt = u.vt ∧ (sortSet F before u).vals.map (·.1) = u.vals.map (·.1) :=
   sortSet_names F before u
